@@ -204,3 +204,18 @@ def bit(v, i):
 def tier():
     import os
     return os.environ.get("PYVC_TIER", "quick")
+
+
+def pick(x, K):
+    """Concretise x, known/expected to lie in range(K) with small K: on proxies
+    this forks one path per value (values outside range(K) stay symbolic and the
+    caller must treat a non-int result as a failed check)."""
+    if isinstance(x, SymBool):
+        x = x._int()
+    if isinstance(x, SymInt):
+        c = S.ctx()
+        for k in range(K):
+            if c.decide(x.e == k):
+                return k
+        return x
+    return x
